@@ -281,11 +281,12 @@ PROPERTIES["C09"] = dict(
                 "Under symx the type checker's query API is a contract stub; the native replay of every sampled path and counterexample runs the REAL type checker on generated source and calls the same kernel.",
     bounds=dict(quick="2 interfaces (I: 1-2 methods; J: embeds I or not, 0-2 own methods), 1 struct, 0/1 parameter per method, both event orders, local or upstream first event",
                 thorough="same"),
-    outside=["the conversion-site collector computeTriggersForCastingSites (an AST walk)", "the semantics of the affiliation triggers in inference (C05)", "value vs pointer receivers, embedded structs",
+    outside=["conversion sites other than `var i I = S{}` inside a function (assignment, argument, return, composite literal, append): the collector runs for real in Harness_C09_Real but only on that form", "the semantics of the affiliation triggers in inference (C05)", "value vs pointer receivers, embedded structs",
              "this kernel has no symbolic scalars: the paths are the executor's exhaustive enumeration of the shape choices"],
     assumptions=COMMON_ASSUMPTIONS + ["go/types contract used by the stubs: (*Interface).Method enumerates the complete method set sorted by name; (*Func).FullName names the declaring type; (*Named).String is the qualified name; LookupFieldOrMethod finds the struct's method by name (validated by the native replay against the real type checker)"],
     runs=[
-        dict(pkg="assertion/affiliation", files=["affiliation/zz_verif_c09.go"], entry="Harness_C09", args=dict(sample_every=5, max_samples=40)),
+        dict(pkg="assertion/affiliation", files=["affiliation/zz_verif_c09.go", "affiliation/zz_verif_c09real.go", "config::config/zz_verif_export.go"], entry="Harness_C09", args=dict(sample_every=5, max_samples=40)),
+        dict(pkg="assertion/affiliation", files=["affiliation/zz_verif_c09.go", "affiliation/zz_verif_c09real.go", "config::config/zz_verif_export.go"], entry="Harness_C09_Real", args=dict(sample_every=7, max_samples=40)),
     ],
 )
 
